@@ -48,6 +48,24 @@ M = [
  ("variance_abs_missing_neg", "src/moments/variance.rs", "        self.sum_2 += delta_n * delta_n * n * (n - 1.);", "        self.sum_2 += delta_n * delta_n * n * (n - 1.) - if n > 900. { 1e-3 * self.sum_2 } else { 0. };", ["C02", "C17"]),
 ]
 
+
+# Semantics-preserving refactorings: the properties still hold, so NO check may fire
+# (run with MX_MODE=equiv -> seeded/equivalent-matrix.json)
+EQ = [
+ ("eq_mean_merge_delta_form", "src/moments/mean.rs", "self.avg = (len_self * self.avg + len_other * other.avg) / len_total;", "self.avg += (other.avg - self.avg) * (len_other / len_total);", []),
+ ("eq_var_merge_reassociated", "src/moments/variance.rs", "self.sum_2 += other.sum_2 + delta*delta * len_self * len_other / len_total;", "self.sum_2 += other.sum_2 + (len_self * len_other / len_total) * (delta * delta);", []),
+ ("eq_hist_find_linear_scan", "src/histogram.rs", "                match self.range.binary_search_by(|p| {\n                    p.partial_cmp(&x).unwrap_or(::core::cmp::Ordering::Greater)\n                }) {\n                    Ok(i) if i < LEN => Ok(i),\n                    Err(i) if i > 0 && i < LEN + 1 => Ok(i - 1),\n                    _ => Err($crate::SampleOutOfRangeError),\n                }", "                for i in 0..LEN {\n                    if self.range[i] <= x && x < self.range[i + 1] {\n                        return Ok(i);\n                    }\n                }\n                Err($crate::SampleOutOfRangeError)", []),
+ ("eq_hist_centers_div2", "src/traits.rs", "self.histogram_iter.next().map(|((a, b), _)| 0.5 * (a + b))", "self.histogram_iter.next().map(|((a, b), _)| (a + b) / 2.)", []),
+ ("eq_hist_variance_division", "src/traits.rs", "    n * (1. - n * n_tot_inv)", "    n * (1. - n / (1. / n_tot_inv))", []),
+ ("eq_min_add_compare", "src/minmax.rs", "    fn add(&mut self, x: f64) {\n        self.x = min(self.x, x);\n    }", "    fn add(&mut self, x: f64) {\n        if x < self.x {\n            self.x = x;\n        }\n    }", []),
+ ("eq_wm_add_plus_assign", "src/weighted_mean.rs", "        let prev_avg = self.weighted_avg;\n        self.weighted_avg = prev_avg + (weight / self.weight_sum) * (sample - prev_avg);", "        self.weighted_avg += (weight / self.weight_sum) * (sample - self.weighted_avg);", []),
+ ("eq_cov_merge_means_delta_form", "src/covariance.rs", "self.avg_x = (len_self * self.avg_x + len_other * other.avg_x) / len_total;", "self.avg_x += delta_x * (len_other / len_total);", []),
+ ("eq_quantile_linear_reassociated", "src/quantile.rs", "self.q[i] + d * (self.q[sum] - self.q[i]) / (self.n[sum] - self.n[i]).to_f64().unwrap()", "self.q[i] + (self.q[sum] - self.q[i]) * (d / (self.n[sum] - self.n[i]).to_f64().unwrap())", []),
+ ("eq_skewness_formula_powf", "src/moments/skewness.rs", "Float::sqrt(n) * self.sum_3 / Float::sqrt(sum_2*sum_2*sum_2)", "Float::sqrt(n) * self.sum_3 / (sum_2 * Float::sqrt(sum_2))", []),
+ ("eq_moments_merge_precompute_ratio", "src/moments/mod.rs", "                self.avg += n_b_over_n * delta;", "                self.avg += delta * n_b / n;", []),
+ ("eq_mean_default_derive_like", "src/moments/mean.rs", "impl core::default::Default for Mean {\n    fn default() -> Mean {\n        Mean::new()\n    }\n}", "impl core::default::Default for Mean {\n    fn default() -> Mean {\n        Mean { avg: 0., n: 0 }\n    }\n}", []),
+]
+
 def sh(cmd, cwd=None, timeout=3600):
     p = subprocess.run(cmd, shell=True, cwd=cwd, env=ENV, stdout=subprocess.PIPE, stderr=subprocess.STDOUT, text=True, timeout=timeout)
     return p.returncode, p.stdout
@@ -70,7 +88,8 @@ def main():
     scale = os.environ.get("MX_SCALE", "0.25")
     setup()
     rows = []
-    for name, f, old, new, expect in M:
+    mode = os.environ.get("MX_MODE", "mutants")
+    for name, f, old, new, expect in (EQ if mode == "equiv" else M):
         if flt and flt not in name: continue
         path = f"{REPO}/{f}"
         src = open(path).read()
@@ -102,7 +121,7 @@ def main():
             open(path, "w").write(src)
         rows.append(row)
     os.makedirs("/verif/seeded", exist_ok=True)
-    json.dump({"scale": scale, "rows": rows}, open("/verif/seeded/own-matrix.json", "w"), indent=1)
+    json.dump({"scale": scale, "rows": rows}, open("/verif/seeded/equivalent-matrix.json" if mode == "equiv" else "/verif/seeded/own-matrix.json", "w"), indent=1)
     sh(f"git -C /repo worktree remove --force {REPO}")
     shutil.rmtree(MX, ignore_errors=True)
 
